@@ -221,7 +221,7 @@ def coq_eval(mod, terms, use_model=True, want_outputs=False):
         for k, sh_terms in enumerate(shards):
             p = os.path.join(work, "S%d.v" % k)
             with open(p, "w") as f:
-                f.write("From NV Require Import Common.Py %s%s.\n" % (mod.SPEC_REQ, (" " + mod.MODEL_REQ) if use_model else ""))
+                f.write("From NV Require Import Common.Py %s %s%s.\n" % (getattr(mod, "EXTRA_REQ", ""), mod.SPEC_REQ, (" " + mod.MODEL_REQ) if use_model else ""))
                 f.write("From Coq Require Import String.\nOpen Scope Z_scope.\n")
                 f.write("Definition cases : list %s := [\n" % mod.CASE_TYPE)
                 f.write(";\n".join(sh_terms))
@@ -278,7 +278,7 @@ def coq_show(mod, term, use_model=True):
         p = os.path.join(work, "Show.v")
         shows = getattr(mod, "SHOW_FNS", [])
         with open(p, "w") as f:
-            f.write("From NV Require Import Common.Py %s%s.\n" % (mod.SPEC_REQ, (" " + mod.MODEL_REQ) if use_model else ""))
+            f.write("From NV Require Import Common.Py %s %s%s.\n" % (getattr(mod, "EXTRA_REQ", ""), mod.SPEC_REQ, (" " + mod.MODEL_REQ) if use_model else ""))
             f.write("From Coq Require Import String.\nOpen Scope Z_scope.\n")
             f.write("Definition c : %s := %s.\n" % (mod.CASE_TYPE, term))
             f.write("Eval vm_compute in (%s c).\n" % mod.SPEC_FN)
